@@ -20,7 +20,7 @@ for f in v4/collection/queue.go v4/cdcn/scanner.go; do
       [ $v -gt 0 ] && echo "$out" | grep -A1 '^VIOLATION' | head -6
     done
     echo "$f:$ln [$what] ->$res"
-    git -C /repo reset -q; git -C $REPO checkout -- .
+    git -C $REPO reset -q; git -C $REPO checkout -- .
   done
 done
 [ $VROOT = /verif ] && git -C /verif checkout -- evidence 2>/dev/null
